@@ -77,6 +77,9 @@ struct Model {
     /// finds one must resolve back to the same string
     ghost_names: Vec<(String, String)>,
     ghost_prefixes: Vec<String>,
+    /// every text handed to a parser so far (parsing registers what it sees), and whether html5() ran
+    parsed_texts: Vec<String>,
+    html5_called: bool,
 }
 
 impl Model {
@@ -176,6 +179,26 @@ impl Model {
                         return Err(format!("{}: ({:?},{:?}) (seen by a rejected parse) shares its id with the registered name {:?}", what, l, n, reg.0));
                     }
                 }
+            }
+        }
+        // lookups find exactly what is registered: pool strings that were never registered as that
+        // kind (and that no rejected parse has seen) are not found
+        // (only while nothing has registered strings behind the model's back: no parse, no html5())
+        let pure = !self.html5_called && self.parsed_texts.is_empty();
+        for s in STRS_WIDE.iter().chain(["urn:only-a-namespace", "onlyaprefix"].iter()).filter(|_| pure) {
+            let ghost = self.ghost_prefixes.iter().any(|g| g == s) || self.ghost_names.iter().any(|(l, n)| l == s || n == s);
+            // (coarse but sound) a string that occurs anywhere in a parsed text may have been registered by the parser
+            if ghost || s.is_empty() || self.parsed_texts.iter().any(|t| t.contains(*s)) {
+                continue;
+            }
+            if !self.pf.contains_key(*s) && xot.prefix(s).is_some() {
+                return Err(format!("{}: prefix({:?}) finds something although that string was never registered as a prefix", what, s));
+            }
+            if !self.ns.contains_key(*s) && xot.namespace(s).is_some() {
+                return Err(format!("{}: namespace({:?}) finds something although that string was never registered as a namespace", what, s));
+            }
+            if !self.html5_called && !self.nm.contains_key(&(s.to_string(), String::new())) && xot.name(s).is_some() {
+                return Err(format!("{}: name({:?}) finds something although no such name in no namespace was registered", what, s));
             }
         }
         for s in &self.ghost_prefixes {
@@ -453,6 +476,8 @@ impl Property for C08 {
             bulk_counter: 0,
             ghost_names: vec![],
             ghost_prefixes: vec![],
+            parsed_texts: vec![],
+            html5_called: false,
         };
         if let Err(e) = builtin(&xot) {
             return Verdict::Fail(e);
@@ -527,11 +552,13 @@ impl Property for C08 {
                         ];
                         let d = *src.pick(DOCS);
                         log.push(format!("parse({:?})", d));
+                        m.parsed_texts.push(d.to_string());
                         xot.parse(d).map_err(|e| format!("parse of fixed doc failed: {}", e))?;
                         m.check_all(&xot, "after parse")?;
                     }
                     4 => {
                         log.push("html5()".into());
+                        m.html5_called = true;
                         let _ = xot.html5();
                         m.check_all(&xot, "after html5()")?;
                     }
@@ -569,6 +596,7 @@ impl Property for C08 {
                         let r = render::render(src, &t, render::Style { prolog: false, cdata: false, line_ends: false, ..render::Style::rich() })
                             .map_err(|e| format!("harness: renderer: {}", e))?;
                         log.push(format!("parse({:?})", r.text));
+                        m.parsed_texts.push(r.text.clone());
                         kinds[0] = true;
                         let doc = match xot.parse(&r.text) {
                             Ok(d) => d,
@@ -615,6 +643,7 @@ impl Property for C08 {
                             _ => format!("<f{f}a><q{f}:f{f}b/></f{f}a>", f = f),
                         };
                         log.push(format!("parse({:?}) [to be rejected]", text));
+                        m.parsed_texts.push(text.clone());
                         if xot.parse(&text).is_ok() {
                             return Err(format!("harness: {:?} was accepted", text));
                         }
